@@ -12,7 +12,7 @@ from . import common
 
 ID = 'C03'
 LEVEL = 'exploration'
-RUNS = {'quick': 8000, 'thorough': 160000}
+RUNS = {'quick': 20000, 'thorough': 400000}
 CHUNK = 50
 PROBES = ['multi_chunk', 'empty_chunk', 'cut_inside_window', 'cut_inside_lookup', 'decoy_tag_in_stackshot', 'gap_before_event_tag',
           'header_plist_unaligned', 'two_kext_blocks', 'two_dyld_blocks', 'two_code_blocks', 'two_log_blocks', 'unpadded_last_block',
